@@ -110,6 +110,9 @@ def prepare(ch):
             gt = Gen(ch, cfg, "t%d" % len(ops))
             gt.uid = 1000 * (len(ops) + 1)
             name = TOOL_NAMES[ch.draw(len(TOOL_NAMES))]
+            if ch.chance(1, 4):
+                # the tools that hand out further iterators over the handle have the most ways to go wrong
+                name = ("groupby", "tee", "merge", "groupby")[ch.draw(4)]
             spec = TOOLS[name].gen(gt)
             if not spec.srcs:
                 # zip()/zip_longest() without arguments: give it the handle as only source
@@ -130,7 +133,9 @@ def prepare(ch):
                     p_.items = sorted([i for i in p_.items if type(i).__name__ == "Item"], key=lambda i: i.key)
                 prep.sort_underlying = True
             # the handle takes the place of one of the tool's iterable arguments (not always the first)
-            ops.append(("tool", spec, ch.draw(5), ch.draw(3), ch.draw(len(spec.srcs))))
+            # (drivers such as groupby's deliver several events per item: more steps are needed to get anywhere)
+            take = ch.draw(5) if ch.chance(2, 3) else ch.between(5, 10)
+            ops.append(("tool", spec, take, ch.draw(3), ch.draw(len(spec.srcs))))
         elif kind == 1:
             ops.append(("pull", ch.between(1, 2)))
         elif kind == 2 and depth < 3:
